@@ -16,6 +16,7 @@
 -/
 import GeoModel.Hull
 import GeoProofs.Lemmas.C08Mem
+import GeoProofs.Lemmas.C08Trivial
 import Mathlib.Tactic.Linarith
 import Mathlib.Tactic.Ring
 
@@ -363,5 +364,152 @@ theorem minBoxArea_le (hull : List Pt) (m : Rat) (h : minBoxArea hull = some m) 
           · intro m1 h1; cases h1
             exact this.2 _ rfl
   exact (key _ _ _ h).1
+
+
+/-! ### T2: the stack pass of Graham's scan keeps a strictly convex chain (local invariant) -/
+
+/-- the stack (top first) makes a strict left turn at every inner vertex -/
+def StackOk : List Pt → Prop
+  | top :: snd :: third :: rest => orient third snd top = .ccw ∧ StackOk (snd :: third :: rest)
+  | _ => True
+
+private theorem stackOk_tail (x : Pt) (t : List Pt) (h : StackOk (x :: t)) : StackOk t := by
+  cases t with
+  | nil => trivial
+  | cons y u =>
+    cases u with
+    | nil => trivial
+    | cons z w => exact h.2
+
+private theorem popWhile_ok (pt : Pt) : ∀ st : List Pt, StackOk st →
+    StackOk (popWhile false pt st) ∧
+    (∀ top snd rest, popWhile false pt st = top :: snd :: rest → orient snd top pt = .ccw) := by
+  intro st
+  induction st with
+  | nil => intro _; simp [popWhile, StackOk]
+  | cons top t ih =>
+    intro hok
+    cases t with
+    | nil => simp [popWhile, StackOk]
+    | cons snd rest =>
+      have htail := stackOk_tail _ _ hok
+      simp only [popWhile]
+      split
+      · rename_i hccw
+        refine ⟨hok, ?_⟩
+        intro a b r heq
+        cases heq
+        exact hccw
+      · exact ih htail
+      · simp only [Bool.false_eq_true, if_false]
+        exact ih htail
+
+/-- [Tp] `graham_pass_convex`: whatever the order of the points fed to it, the stack pass of
+`graham_hull(.., false)` keeps a chain that turns strictly left at every inner vertex.
+(Full statement, not proved: if the points are angularly sorted around the lexicographically least
+point the closed chain is the strict hull, `isStrictHull (grahamHull rnd pts false) pts`.) -/
+theorem graham_pass_convex_partial (l : List Pt) : ∀ st : List Pt, StackOk st →
+    StackOk (l.foldl (grahamStep false) st) := by
+  induction l with
+  | nil => intro st h; exact h
+  | cons p t ih =>
+    intro st h
+    simp only [List.foldl]
+    apply ih
+    unfold grahamStep
+    dsimp only
+    have hp := popWhile_ok p st h
+    split
+    · generalize hst : popWhile false p st = st' at hp
+      cases st' with
+      | nil => trivial
+      | cons a u =>
+        cases u with
+        | nil => trivial
+        | cons b w => exact ⟨hp.2 a b w rfl, hp.1⟩
+    · exact hp.1
+
+/-- [T] spelled out: in the vertex order of the output (bottom of the stack first) every three
+consecutive vertices of the chain built by `graham_hull(.., false)` make a strict left turn. -/
+theorem graham_chain_strict (head : Pt) (l : List Pt) :
+    StackOk (l.foldl (grahamStep false) [head]) :=
+  graham_pass_convex_partial l [head] trivial
+
+theorem stackOk_spec (st : List Pt) (h : StackOk st) :
+    ∀ (i : Nat) (a b c : Pt), st[i]? = some c → st[i + 1]? = some b → st[i + 2]? = some a →
+      0 < cross a b c := by
+  induction st with
+  | nil => intro i a b c hc; simp at hc
+  | cons x t ih =>
+    intro i a b c hc hb ha
+    cases i with
+    | zero =>
+      cases t with
+      | nil => simp at hb
+      | cons y u =>
+        cases u with
+        | nil => simp at ha
+        | cons z w =>
+          simp at hc hb ha
+          subst hc hb ha
+          exact (orient_ccw_iff _ _ _).1 h.1
+    | succ j =>
+      exact ih (stackOk_tail _ _ h) j a b c (by simpa using hc) (by simpa using hb) (by simpa using ha)
+
+
+/-! ### T1: the trivial cases (fewer than four coordinates) are complete -/
+
+/-- [T] `trivialHull_correct`: for fewer than four coordinates of which three are not collinear,
+`trivial_hull` (both `include_on_hull` settings) returns the strict hull: a closed, strictly
+counter-clockwise triangle on the input coordinates containing all of them. -/
+theorem trivialHull_correct (pts : List Pt) (incl : Bool) (ht : hasTriangle pts = true)
+    (hl : pts.length < 4) : isStrictHull (trivialHull pts incl) pts = true :=
+  trivialHull_triangle pts incl ht hl
+
+example : isStrictHull (trivialHull [⟨0, 0⟩, ⟨0, 1⟩, ⟨1, 0⟩] false) [⟨0, 0⟩, ⟨0, 1⟩, ⟨1, 0⟩] = true :=
+  trivialHull_correct _ _ (by decide +kernel) (by decide)
+
+/-- [T] the full property for fewer than four coordinates, for all three entry points. -/
+theorem small_hull_correct (rnd : Rat → Rat) (pts : List Pt) (ht : hasTriangle pts = true)
+    (hl : pts.length < 4) :
+    isStrictHull (quickHull rnd pts) pts = true ∧ isStrictHull (grahamHull rnd pts false) pts = true ∧
+      isStrictHull (convexHull rnd pts) pts = true ∧
+      sameVertexSet (quickHull rnd pts) (grahamHull rnd pts false) = true := by
+  have hq : quickHull rnd pts = trivialHull pts false := by unfold quickHull; rw [if_pos hl]
+  have hg : grahamHull rnd pts false = trivialHull pts false := by unfold grahamHull; rw [if_pos hl]
+  rw [convexHull_eq_quickHull, hq, hg]
+  refine ⟨trivialHull_correct pts false ht hl, trivialHull_correct pts false ht hl,
+    trivialHull_correct pts false ht hl, ?_⟩
+  unfold sameVertexSet
+  simp
+
+/-- [T] documented degenerate outputs: no coordinate gives the empty ring, one coordinate is
+doubled ("a linestring with a single point is invalid"). -/
+theorem trivialHull_degenerate (a : Pt) (incl : Bool) :
+    trivialHull [] incl = [] ∧ trivialHull [a] incl = [a, a] := by
+  constructor
+  · cases incl <;>
+      simp [trivialHull, trivialDedup, lexSort, trivialPad, close, makeCcw, windingOrder]
+  · cases incl <;>
+      simp [trivialHull, trivialDedup, lexSort, lexInsert, trivialPad, close, makeCcw, windingOrder]
+
+/-- [T] a ring without a strict turn is never accepted: for inputs without three non-collinear
+coordinates (outside the property's domain) no ring passes the checker. -/
+theorem no_hull_without_triangle (h pts : List Pt) (hs : isStrictHull h pts = true) :
+    hasTriangle pts = true := by
+  have hv := isStrictHull_vertices h pts hs
+  have hc := isStrictHull_closed h pts hs
+  have ht := isStrictHull_turns h pts hs
+  -- the first three vertices of the ring turn strictly left
+  match h, hc, hv, ht with
+  | a :: b :: c :: d :: t, _, hv, ht =>
+    have hlen : 0 < (a :: b :: c :: d :: t).dropLast.length := by simp
+    have h3 : 3 ≤ (a :: b :: c :: d :: t).dropLast.length := by simp
+    have hpos := ht 0 hlen a b c (by simp) (by
+        rw [Nat.mod_eq_of_lt (by omega)]; simp [List.dropLast]) (by
+        rw [Nat.mod_eq_of_lt (by omega)]; simp [List.dropLast])
+    unfold hasTriangle
+    simp only [List.any_eq_true, bne_iff_ne, ne_eq]
+    exact ⟨a, hv a (by simp), b, hv b (by simp), c, hv c (by simp), ne_of_gt hpos⟩
 
 end Geo.Proofs.C08
